@@ -62,6 +62,9 @@ def work(ctx):
     ns["nan"] = float("nan")
     ns["Ellipsis"] = Ellipsis
     tmp = tempfile.mkdtemp(prefix="c16_")
+    import atexit
+    import shutil
+    atexit.register(shutil.rmtree, tmp, True)          # the scratch directory of this worker goes away with it
     flags_all = ["--dis", "--dis-after", "--source", "--no-normalize", "--json"]
 
     # ---- 1. exactly one program source, otherwise a usage error: all 2^4 subsets (x empty-string values)
